@@ -1747,6 +1747,11 @@ func (n *nextIter) fetchAsync() {
 
 func (n *nextIter) fetch() *Iter {
 	n.once.Do(func() {
+		if len(n.qry.pageState) == 0 {
+			// without a state the request would be the first page again, for ever
+			n.next = &Iter{err: errors.New("gocql: the result announces more pages but carries no paging state")}
+			return
+		}
 		// if the query was specifically run on a connection then re-use that
 		// connection when fetching the next results
 		if n.qry.conn != nil {
